@@ -27,6 +27,9 @@ fn can(xs: &[F]) -> String {
 fn elt(r: &mut Rng) -> F {
     match r.below(8) {
         0 => F::from_canonical_u64(*r.pick(&[0, 1, 2, 255, 256, P - 1, P - 2, EPS, EPS + 1, 1 << 32, 1 << 56, (1 << 56) - 1])),
+        // the same residue in its NON-canonical representation (raw word v + p): requests carry the
+        // canonical value, so a hasher that serialises the raw word gives itself away
+        1 => F::from_noncanonical_u64(P + *r.pick(&[0u64, 1, 2, 255, (1 << 32) - 2]) + if r.coin() { 0 } else { r.below((1 << 32) - 300) }),
         _ => F::from_canonical_u64(r.below(P)),
     }
 }
